@@ -43,7 +43,7 @@ T fp<T>::ext_gcd(T &a, T &b, T &x, T &y) {
         return b;
     }
     if (b == 0) {
-        x = bneg ? -1 : 1;
+        x = aneg ? -1 : 1;
         return a;
     }
 
